@@ -10,13 +10,16 @@ proofs:
 	cd $(COQDIR) && set -o pipefail && timeout 3000 $(MAKE) -f Makefile.coq -j16 2>&1 | tee -a build.log | grep -v '^Closed under\|^COQ\|^$$' ; true
 	cd $(COQDIR) && timeout 3000 $(MAKE) -f Makefile.coq -j16 >/dev/null 2>&1
 	cd $(COQDIR) && for f in Props/C*.v; do o=$${f%.v}.out; if [ ! -f $$o ] || [ $$o -ot $${f%.v}.vo ]; then echo $$f; fi; done | \
-	  xargs -r -P16 -I{} sh -c 'f={}; timeout 900 coqc -Q . Sftp $$f > $${f%.v}.out 2>&1 || echo "COQC-FAILED" >> $${f%.v}.out'
+	  xargs -r -P16 -I{} sh -c 'f={}; o=$${f%.v}.out; timeout 900 coqc -Q . Sftp $$f > $$o.tmp 2>&1 || echo "COQC-FAILED" >> $$o.tmp; touch -r $${f%.v}.vo $$o.tmp; mv -f $$o.tmp $$o'
 
+# (both steps only when their inputs are newer than their outputs, and the driver is replaced atomically: checks may run side by side)
 extract: proofs
-	cd ocaml && timeout 600 coqc -Q ../coq Sftp ../coq/Extract/Extract.v >/dev/null && rm -f model.mli
+	cd ocaml && if [ ! -f model.ml ] || [ model.ml -ot ../coq/Extract/Extract.vo ] || [ model.ml -ot ../coq/Extract/Extract.v ]; then \
+	  timeout 600 coqc -Q ../coq Sftp ../coq/Extract/Extract.v >/dev/null && rm -f model.mli && touch model.ml; fi
 
 driver: extract
-	cd ocaml && ocamlfind ocamlopt -O3 -w -a model.ml conv.ml drv_mode.ml drv_wire.ml drv_client.ml drv_srv.ml drv_xfer.ml drv_req.ml drv_trace.ml drv_fs.ml $(DRV_EXTRA) driver.ml -o driver
+	cd ocaml && stale=0; for f in model.ml conv.ml drv_*.ml driver.ml; do if [ ! -f driver ] || [ driver -ot $$f ]; then stale=1; fi; done; \
+	  if [ $$stale = 1 ]; then ocamlfind ocamlopt -O3 -w -a model.ml conv.ml drv_mode.ml drv_wire.ml drv_client.ml drv_srv.ml drv_xfer.ml drv_req.ml drv_trace.ml drv_fs.ml $(DRV_EXTRA) driver.ml -o driver.new && mv -f driver.new driver; fi
 
 clean:
 	cd $(COQDIR) && [ -f Makefile.coq ] && $(MAKE) -f Makefile.coq clean; rm -f $(COQDIR)/Makefile.coq* $(COQDIR)/build.log
